@@ -675,6 +675,41 @@ def run(db: DB, rep: Report) -> None:
                       "of the others are free to be ordered before what they read" %
                       (norm(e)[:70], norm(stale[0][0].iter)[:40] if stale else "", stale[0][1] if stale else ""))
 
+    # ---- K11 a node built from a collection depends on every element of it ----------------
+    rep.rule("K11", "a node constructed from a collection of tensors gets an in-edge for every element", 1)
+    n_k11 = 0
+    for f in fg.methods.values():
+        for st in [n for n in walk_no_nested(f.node) if isinstance(n, ast.Assign) and len(n.targets) == 1 and
+                   isinstance(n.targets[0], ast.Name) and isinstance(n.value, ast.Call) and
+                   isinstance(n.value.func, ast.Name) and n.value.func.id.endswith("Node")]:
+            node_local = st.targets[0].id
+            def bare(a: ast.AST) -> str:
+                if isinstance(a, ast.Call) and isinstance(a.func, ast.Name) and a.func.id in ("list", "tuple") \
+                        and len(a.args) == 1:
+                    return norm(a.args[0])
+                if isinstance(a, ast.Call) and isinstance(a.func, ast.Attribute) and a.func.attr == "copy":
+                    return norm(a.func.value)
+                return norm(a)
+            arg_txt = {bare(a) for a in st.value.args}
+            for lp in [n for n in walk_no_nested(f.node) if isinstance(n, ast.For) and bare(n.iter) in arg_txt]:
+
+                def into_node(n, node_local=node_local):
+                    return isinstance(n, ast.Call) and isinstance(n.func, ast.Attribute) and \
+                        n.func.attr == "add_edge" and len(n.args) >= 2 and norm(n.args[1]) == node_local
+                if not any(into_node(x) for x in ast.walk(lp)):
+                    continue        # not the loop that connects the elements to this node
+                n_k11 += 1
+                outs = paths.path_counts(lp.body, paths.make_pred(into_node))
+                bad = sorted((c, k) for c, k in outs if k in (paths.FALL, paths.CONT) and c < 1)
+                rep.check("K11", not bad, db.loc(lp), f.short, "operands:" + node_local,
+                          "every element of %s adds an edge into %s" % (norm(lp.iter)[:40], node_local),
+                          "%s is built from the collection %s, and the statement it stands for reads every "
+                          "element, but the loop over that collection has a path (%s) that adds no edge into "
+                          "it: the statement can be ordered before what that element binds" %
+                          (node_local, norm(lp.iter)[:40], bad))
+    if n_k11 < 1:
+        raise AnalysisError("no node built from a collection with a loop over the same collection found (K11)")
+
     # ---- K4 hoist guard --------------------------------------------------------
     rep.rule("K4", "hoisting is guarded by non-descendance of the processed loop and inserts at its index", 1)
     _check_hoist(db, rep, fg)
@@ -1068,6 +1103,10 @@ def mutants(db: DB):
     fnodes = "teaal/ir/flow_nodes.py"
     hf = "teaal/trans/hifiber.py"
     return [
+        M("eager input: fast path for directly iterated tensors adds no edge", fg,
+          "            tranks = [Symbol(trank.lower())\n                      for trank in tensor.get_init_ranks()]\n            trans = self.program",
+          "            if part.get_root_name(rank) in tensor.get_init_ranks():\n                continue\n            tranks = [Symbol(trank.lower())\n                      for trank in tensor.get_init_ranks()]\n            trans = self.program",
+          "K11"),
         M("leader memoised per root rank", fg,
           "                leader = part.get_leader(src, dsts[-1])\n",
           "                part_root = part.get_root_name(src)\n                if part_root not in self.iter_map:\n                    self.iter_map[part_root] = part.get_leader(src, dsts[-1])\n                leader = self.iter_map[part_root]\n",
